@@ -415,6 +415,12 @@ var seqCheck = &core.Check{Name: "c06/sequence", Quick: 40000, Thorough: 4000000
 				got, err = tg.ReadUint(n)
 			}
 			if rem() < n {
+				if pick {
+					// a peek does not move the read position, whether it succeeds or not
+					if got := tg.BitsAvailableForRead(); got != rem() {
+						return fmt.Errorf("%s at cursor %d of %d: the failed peek changed BitsAvailableForRead from %d to %d", desc, pos, len(model), rem(), got)
+					}
+				}
 				if e := expectErr(desc, err); e != nil {
 					return e
 				}
